@@ -7,6 +7,7 @@ package pc
 
 import (
 	"fmt"
+	"strings"
 
 	"pgregory.net/rapid"
 
@@ -136,6 +137,54 @@ func drawStructured(t *rapid.T, n int, label string) []byte {
 	return out[:n]
 }
 
+// semanticValue: a value that MEANS something for the element of that name — a real IMEI with its check digit, the
+// reserved tracking area codes, a 5G-GUTI, an IMEISV, a SUCI — of a length between lo and hi, or nil. Uniform octets
+// never form them; a codec that treats some well-known value specially (drops a "deleted" TAI, zeroes a check
+// digit) is only seen with these. The codec itself has to carry every one of them unchanged.
+func semanticValue(t *rapid.T, name string, lo, hi int, label string) []byte {
+	var cands [][]byte
+	bcd := func(first byte, digits string) []byte {
+		// identity digit 1 in the high nibble of octet 1, then two digits per octet, filler F
+		out := []byte{first | (digits[0]-'0')<<4}
+		for i := 1; i < len(digits); i += 2 {
+			hi := byte(0xf)
+			if i+1 < len(digits) {
+				hi = digits[i+1] - '0'
+			}
+			out = append(out, hi<<4|(digits[i]-'0'))
+		}
+		return out
+	}
+	switch {
+	case strings.Contains(name, "TAI") && !strings.Contains(name, "list"):
+		for _, tac := range [][]byte{{0xff, 0xff, 0xfe}, {0xff, 0xff, 0xff}, {0x00, 0x00, 0x00}, {0x00, 0x00, 0x01}} {
+			cands = append(cands, append([]byte{0x02, 0xf8, 0x39}, tac...), append([]byte{0x00, 0xf1, 0x10}, tac...))
+		}
+	case strings.Contains(strings.ToLower(name), "mobile identity") || name == "IMEISV" || strings.Contains(name, "GUTI") || name == "PEI":
+		cands = append(cands,
+			bcd(0x0b, "490154203237518"),  // IMEI (type 011, odd number of digits), valid check digit 8
+			bcd(0x0b, "356938035643809"),  // IMEI, check digit 9
+			bcd(0x0b, "490154203237510"),  // IMEI whose last digit is 0
+			bcd(0x05, "4901542032375186"), // IMEISV (type 101, even)
+			[]byte{0xf2, 0x02, 0xf8, 0x39, 0xca, 0xfe, 0x00, 0x00, 0x00, 0x00, 0x01}, // 5G-GUTI
+			[]byte{0xf4, 0xfe, 0x00, 0x00, 0x00, 0x00, 0x01},                         // 5G-S-TMSI
+			[]byte{0x01, 0x02, 0xf8, 0x39, 0xf0, 0xff, 0x00, 0x00, 0x00, 0x00, 0x00, 0x00, 0x10}, // SUCI, null scheme
+			[]byte{0x00}) // no identity
+	default:
+		return nil
+	}
+	var fit [][]byte
+	for _, c := range cands {
+		if len(c) >= lo && len(c) <= hi {
+			fit = append(fit, c)
+		}
+	}
+	if len(fit) == 0 || rapid.IntRange(0, 3).Draw(t, label+"_semantic") != 1 {
+		return nil
+	}
+	return append([]byte{}, fit[rapid.IntRange(0, len(fit)-1).Draw(t, label+"_semantic_k")]...)
+}
+
 func drawBytes(t *rapid.T, n int, label string) []byte {
 	if n >= 4 && rapid.IntRange(0, 7).Draw(t, label+"_structured") == 3 {
 		return drawStructured(t, n, label)
@@ -231,7 +280,11 @@ func drawMand(t *rapid.T, b *binding) []hexBytes {
 			out[i] = drawBytes(t, m.MinLen, l)
 		default:
 			lo, hi := b.mandRange(i)
-			out[i] = drawBytes(t, drawLen(t, lo, hi, l+"_len"), l)
+			if sv := semanticValue(t, m.Name, lo, hi, l); sv != nil {
+				out[i] = sv
+			} else {
+				out[i] = drawBytes(t, drawLen(t, lo, hi, l+"_len"), l)
+			}
 		}
 	}
 	return out
@@ -244,9 +297,17 @@ func drawOpt(t *rapid.T, b *binding, k int, lenKind int) wireIE {
 	case refnas.TV1:
 		return wireIE{IEI: o.IEI, Val: hexBytes{byte(rapid.IntRange(0, 15).Draw(t, l+"_nib"))}}
 	case refnas.TV:
+		if sv := semanticValue(t, o.Name, o.MinLen-1, o.MinLen-1, l); sv != nil {
+			return wireIE{IEI: o.IEI, Val: sv}
+		}
 		return wireIE{IEI: o.IEI, Val: drawBytes(t, o.MinLen-1, l)}
 	}
 	lo, hi := b.optRange(k)
+	if len(o.Lens) == 0 {
+		if sv := semanticValue(t, o.Name, lo, hi, l); sv != nil {
+			return wireIE{IEI: o.IEI, Val: sv}
+		}
+	}
 	var n int
 	if ls := legalLens(o, lo, hi); len(o.Lens) > 0 {
 		n = rapid.SampledFrom(ls).Draw(t, l+"_len")
